@@ -7,9 +7,10 @@ Ev(name) == l <= Len(T) /\ T[l].e = name /\ l' = l + 1
 R == T[l]
 TReset == Ev("Reset") /\ family' = R.family /\ pending' = [on |-> FALSE, want |-> 0] /\ ran' = 0
 TCall == Ev("Call") /\ Call(R.origin, R.name)
+TSuper == Ev("Super") /\ Super(R.from, R.name)
 TRan == Ev("Ran") /\ Ran(R.p, R.vp)
 TDone == Ev("Done") /\ Done
-TraceNext == TReset \/ TCall \/ TRan \/ TDone
+TraceNext == TReset \/ TCall \/ TSuper \/ TRan \/ TDone
 TraceInit == Init /\ l = 1
 TraceSpec == TraceInit /\ [][TraceNext]_tvars
 ASSUME TLCSet(1, 0)
